@@ -526,3 +526,17 @@ func init() {
 			st.total, st.fromPlayout, st.fromSynthetic, st.fromTemplate, st.fromSuite, st.inCheck, st.withEp, st.withCastle, st.rejected)
 	}
 }
+
+func init() {
+	// verifh pos1 <file with one FEN per line>: implementation line for each
+	commands["pos1"] = func(args []string) {
+		data, err := os.ReadFile(args[0])
+		if err != nil {
+			os.Exit(2)
+		}
+		for _, fen := range strings.Split(strings.TrimSpace(string(data)), "\n") {
+			out.WriteString(posImplLine(fen))
+			out.WriteByte('\n')
+		}
+	}
+}
